@@ -62,7 +62,8 @@ const (
 	ocBadBody
 )
 
-var hookURLs = []string{"http://hook-a.sim/cb", "http://hook-b.sim:8080/x/y", "http://hook-c.sim/"}
+// the fourth URL is the first one with "_" for "-": two rows that only a pattern comparison (LIKE) confuses (wave 9)
+var hookURLs = []string{"http://hook-a.sim/cb", "http://hook-b.sim:8080/x/y", "http://hook-c.sim/", "http://hook_a.sim/cb"}
 
 type errBody struct{}
 
